@@ -110,7 +110,12 @@ def prepare_date(data, schema):
     if isinstance(data, datetime.date):
         return data.toordinal() - DAYS_SHIFT
     elif isinstance(data, str):
-        return datetime.date.fromisoformat(data).toordinal() - DAYS_SHIFT
+        try:
+            return datetime.date.fromisoformat(data).toordinal() - DAYS_SHIFT
+        except ValueError:
+            # not an ISO date: leave it to the int validator / encoder to
+            # reject (a str datum may belong to another branch of a union)
+            return data
     else:
         return data
 
